@@ -865,6 +865,23 @@ fn reported_error(o: &CliOut, print: &str) -> Option<String> {
     e.map(|l| l.trim().to_string())
 }
 
+/// Does a run that printed a message (see `reported_error`) claim to have *failed*? It does if its
+/// exit status says so, if result blocks are missing, or - when neither blocks nor an archive were
+/// asked for, so that the message is all there is - if the message is on stdout. A message next to
+/// complete results and exit status 0 is a diagnostic; results and archive are judged regardless.
+fn claims_failure(o: &CliOut, print: &str, all_blocks_present: bool, archive_requested: bool) -> bool {
+    if o.code != Some(0) {
+        return true;
+    }
+    if print != "no-print" {
+        return !all_blocks_present;
+    }
+    if archive_requested {
+        return false;
+    }
+    !strip_ansi(&o.stdout).trim().is_empty()
+}
+
 pub fn check(world: &World, sc: &C17, sandbox: &str) -> Report {
     let _ = world;
     let mut rep = Report::default();
@@ -1295,9 +1312,13 @@ pub fn check(world: &World, sc: &C17, sandbox: &str) -> Report {
             if let Some(e) = &err_line {
                 if ctx_damaged {
                     // handled above
-                } else {
+                } else if claims_failure(&o, &sc.print, n_ok == expected.len(), out_abs.is_some()) {
                     rep.violate("failed_without_fault", format!("{how}: valid inputs, no fault injected, but the tool reported `{e}`"));
                     return rep;
+                } else {
+                    // a message next to complete results and exit status 0 is a diagnostic, not a
+                    // failure: the results and the archive are judged below
+                    rep.probe("messages_next_to_complete_results", 1);
                 }
             }
             if sc.print != "no-print" && n_ok != expected.len() {
@@ -1377,8 +1398,12 @@ pub fn check(world: &World, sc: &C17, sandbox: &str) -> Report {
                         return rep;
                     }
                     if let Some(e) = reported_error(&o2, &sc.print) {
-                        rep.violate("failed_without_fault", format!("{how2}: the tool reported `{e}`"));
-                        return rep;
+                        let complete = sc.print == "no-print" || parse_blocks(&o2.stdout, exhaustive).map(|b| b.len() == expected.len()).unwrap_or(false);
+                        if claims_failure(&o2, &sc.print, complete, out_abs.is_some()) {
+                            rep.violate("failed_without_fault", format!("{how2}: the tool reported `{e}`"));
+                            return rep;
+                        }
+                        rep.probe("messages_next_to_complete_results", 1);
                     }
                     if sc.print != "no-print" {
                         match parse_blocks(&o2.stdout, exhaustive) {
